@@ -205,11 +205,58 @@ def flatten(obj, pre, out):
 
 
 # ---------------------------------------------------------------- refs <-> paths
+ROOTKIND = {}      # label -> "ref" | "refattr" | "env" for the current case
+ENVS = {}
+
+
 def mkref(roots, path):
     r = roots[path[0]]
-    for kind, key in path[1:]:
-        r = r[dk(key)] if kind == "i" else getattr(r, key)
+    for n, (kind, key) in enumerate(path[1:]):
+        if kind == "i" and n == 0 and ROOTKIND.get(path[0]) == "refattr" and isinstance(key, str) and key.isidentifier() \
+                and not key.startswith("_"):
+            r = getattr(r, key)          # Manager.refattr: attribute access on the root is item access
+        else:
+            r = r[dk(key)] if kind == "i" else getattr(r, key)
     return r
+
+
+class WriteAction:
+    """the action of a generated FunctionTask: a picklable callable (a manager holding it can be pickled)"""
+
+    def __init__(self, writes):
+        self.writes = writes
+
+    def __call__(self):
+        for r, e in self.writes:
+            r._set_value(e._get_value() if isinstance(e, BaseRef) else e)
+
+
+def make_roots(m2, data2):
+    """a twin manager gets its containers the same way (ref / refattr / newenv) as the manager under test"""
+    out = {}
+    for label, d in data2.items():
+        rk = ROOTKIND.get(label, "ref")
+        out[label] = m2.newenv(label, d)._ if rk == "env" else m2.refattr(d, label) if rk == "refattr" else m2.ref(d, label)
+    return out
+
+
+def assign(m, roots, path, value, route):
+    """the same assignment through one of the public routes"""
+    ref = mkref(roots, path)
+    kind, key = path[-1]
+    if route in ("env", "envattr") and len(path) == 2 and path[0] in ENVS and kind == "i":
+        if route == "envattr" and isinstance(key, str) and key.isidentifier() and not key.startswith("_"):
+            setattr(ENVS[path[0]], key, value)
+        else:
+            ENVS[path[0]][dk(key)] = value
+    elif route == "item" or route in ("env", "envattr"):
+        owner = mkref(roots, path[:-1])
+        if kind == "i":
+            owner[dk(key)] = value
+        else:
+            setattr(owner, key, value)
+    else:
+        m.set_value(ref, value)
 
 
 def ref_path(r):
@@ -242,6 +289,9 @@ def mkexpr(roots, e):
         return a + b if e[1] == "+" else a - b if e[1] == "-" else a * b
     if k == "callsum":
         return mkref(roots, e[1])(mkref(roots, e[2]))
+    if k == "proj":
+        inner = mkexpr(roots, e[2])
+        return getattr(inner, e[1])
     raise ValueError(e)
 
 
@@ -278,8 +328,12 @@ xt.toposort = _toposort
 
 
 def exc_name(e):
-    if isinstance(e, Injected) or isinstance(e.__cause__, Injected) or isinstance(e.__context__, Injected):
+    if isinstance(e, Injected):
         return "Fault"
+    if isinstance(e, RuntimeError) and isinstance(e.__cause__, Injected):
+        return "Fault"          # PEP 479: a StopIteration crossing a generator frame arrives as RuntimeError from it
+    if isinstance(e.__context__, Injected) or isinstance(e.__cause__, Injected):
+        return "Masked:" + type(e).__name__      # the injected exception was caught and another one raised instead
     for cls in (KeyError, IndexError, AttributeError, TypeError, ValueError, RecursionError, ZeroDivisionError):
         if isinstance(e, cls):
             return cls.__name__
@@ -450,7 +504,7 @@ def gen_fun_check(m, roots, roots_data, arg_paths, values, obs):
         return {"skipped": "non-expression tasks", "err": None}
     data2 = copy.deepcopy(roots_data)
     m2 = xd.Manager()
-    roots2 = {label: m2.ref(d, label) for label, d in data2.items()}
+    roots2 = make_roots(m2, data2)
     m2.load(m.dump())
     refs = [mkref(roots, p) for p in arg_paths]
     start = set()
@@ -538,6 +592,12 @@ def pickle_check(m, roots_data, followups):
         return {"problems": [f"pickle round trip raised {type(e).__name__}: {e}"[:200]]}
     if m2.dump() != m.dump():
         problems.append("dump() differs")
+    def knob_state(mm):
+        return sorted((str(t.taskid), repr(t.prev_value), repr(t.weights)) for t in mm.tasks.values() if isinstance(t, LinearKnob))
+    if knob_state(m2) != knob_state(m):
+        problems.append(f"state of the linear-knob tasks differs: original {knob_state(m)[:3]}, restored {knob_state(m2)[:3]}")
+    if sorted((str(k), type(t).__name__) for k, t in m.tasks.items()) != sorted((str(k), type(t).__name__) for k, t in m2.tasks.items()):
+        problems.append("task ids / task classes differ")
     if bool(m2._tree_frozen) != bool(m._tree_frozen):
         problems.append(f"frozen state differs: original {m._tree_frozen!r}, restored {m2._tree_frozen!r}")
     c1, c2 = counts(m), counts(m2)
@@ -586,7 +646,7 @@ def fresh_check(m, roots, roots_data, leaves, followups):
         return {"skipped": "non-expression tasks"}
     data2 = copy.deepcopy(roots_data)
     m2 = xd.Manager()
-    roots2 = {label: m2.ref(d, label) for label, d in data2.items()}
+    roots2 = make_roots(m2, data2)
     m2.load(m.dump())
     if m._tree_frozen:
         m2.freeze_tree()          # the fresh manager is put in the same frozen state
@@ -632,10 +692,19 @@ def run_case(case, opts):
     SELFDEP.clear()
     m = xd.Manager()
     roots, roots_data = {}, {}
+    ROOTKIND.clear(); ENVS.clear()
     for label, spec in case["store"]:
         data = build(spec)
         roots_data[label] = data
-        roots[label] = m.ref(data, label)
+        rk = spec.get("root", "ref") if isinstance(spec, dict) else "ref"
+        ROOTKIND[label] = rk
+        if rk == "env":
+            ENVS[label] = m.newenv(label, data)
+            roots[label] = ENVS[label]._
+        elif rk == "refattr":
+            roots[label] = m.refattr(data, label)
+        else:
+            roots[label] = m.ref(data, label)
     out = []
     snap = opts.get("snapshots", True)
     nops = len(case["ops"])
@@ -651,10 +720,11 @@ def run_case(case, opts):
                 ref = mkref(roots, op[1])
                 sd_refs = ref._get_dependencies()
                 obs["sd_order"] = [ref_path(x) for x in sd_refs]
+                route = op[3] if len(op) > 3 else "sv"
                 if op[2][0] == "plain":
-                    m.set_value(ref, dv(op[2][1]))
+                    assign(m, roots, op[1], dv(op[2][1]), route)
                 else:
-                    m.set_value(ref, mkexpr(roots, op[2][1]))
+                    assign(m, roots, op[1], mkexpr(roots, op[2][1]), route)
             elif kind == "inplace":
                 ref = mkref(roots, op[1])
                 sd_refs = ref._get_dependencies()
@@ -675,22 +745,20 @@ def run_case(case, opts):
                     tmp = tmp.__iadd__(val) if sym == "+" else tmp.__isub__(val) if sym == "-" else tmp.__imul__(val)
                     setattr(owner, key, tmp)
             elif kind == "regfun":
-                writes = [(mkref(roots, p), mkexpr(roots, e)) for p, e in op[4]]
-
-                def action(writes=writes):
-                    for r, e in writes:
-                        r._set_value(e._get_value() if isinstance(e, BaseRef) else e)
+                action = WriteAction([(mkref(roots, p), mkexpr(roots, e)) for p, e in op[4]])
+                fid = op[1] if isinstance(op[1], str) else mkref(roots, op[1]["ref"])
                 if any(p in op[3] for p in op[2]):
-                    SELFDEP.add(op[1])          # not idempotent: a genuine data-flow cycle
+                    SELFDEP.add(fid)          # not idempotent: a genuine data-flow cycle
                 # targets and dependencies closed under enclosing containers, as ExprTask computes them
                 tars, deps = set(), set()
                 for p in op[2]:
                     mkref(roots, p)._get_dependencies(tars)
                 for p in op[3]:
                     mkref(roots, p)._get_dependencies(deps)
-                m.register(FunctionTask(op[1], action, tars, deps))
+                m.register(FunctionTask(fid, action, tars, deps))
             elif kind == "regknob":
-                m.register(LinearKnob(op[1], mkref(roots, op[2]), [w for w, _ in op[3]], [mkref(roots, p) for _, p in op[3]]))
+                kid = op[1] if isinstance(op[1], str) else mkref(roots, op[1]["ref"])
+                m.register(LinearKnob(kid, mkref(roots, op[2]), [w for w, _ in op[3]], [mkref(roots, p) for _, p in op[3]]))
             elif kind == "unregister":
                 tid = op[1][1] if op[1][0] == "$task" else mkref(roots, op[1])
                 m.unregister(tid)
@@ -710,7 +778,9 @@ def run_case(case, opts):
             elif kind == "picklecheck":
                 obs["pickle"] = pickle_check(m, roots_data, op[1])
             elif kind == "setattr_raw":
-                setattr(mkref(roots, op[1]), op[2], op[3])
+                tgt = mkref(roots, op[1])
+                obs["in_dir"] = op[2] in dir(tgt)          # a member of the reference object itself (known finding C20)
+                setattr(tgt, op[2], mkexpr(roots, op[3]) if isinstance(op[3], list) else dv(op[3]))
             elif kind == "genfun":
                 obs["genfun"] = gen_fun_check(m, roots, roots_data, op[1], op[2], obs)
                 if obs["genfun"].get("err"):
@@ -728,6 +798,13 @@ def run_case(case, opts):
             if not isinstance(e, (Exception, Injected)):
                 raise
             obs["err"] = exc_name(e)
+        if obs.get("in_dir") and opts.get("stop_in_dir"):
+            # a member of the reference object was overwritten (pure build) or refused (compiled): known finding C20;
+            # the reference objects may be unusable from here on, the rest of the program is not run
+            stub = {"err": obs["err"], "in_dir": True, "store": [], "trace": [], "start_order": [], "oracle": {"canon": []}}
+            out.append(stub)
+            out.extend(dict(stub, err="not-run") for _ in case["ops"][iop + 1:])
+            break
         saved = FAULT["n"]
         FAULT["n"] = None
         obs["trace"] = list(TRACE)
